@@ -33,9 +33,18 @@ def rule_tables(ctx):
     else:
         t = render(fn["body"]).replace(" ", "")
         loops = [l for l in walk(fn["body"]) if l["k"] == "For" and render(strip(l["iter"])) == "library_contents"]
-        sorted_ = "library_contents.sort_by_key(|(file_id,_)|*file_id);" in t or "library_contents.sort();" in t or "library_contents.sort_unstable_by_key(" in t
-        rebound = "letmutlibrary_contents:Vec<_>=library_contents.into_iter().collect();" in t or "letmutlibrary_contents=library_contents.into_iter().collect::<Vec<_>>();" in t or re.search(r"letmutlibrary_contents(:Vec<_>)?=library_contents\.into_iter\(\)\.collect", t) is not None
-        ctx.check(R, "TemplateLibrary::new/files-in-sorted-order", len(loops) == 1 and sorted_ and rebound, "the hash map of file contents must be collected and sorted by file id before it is visited", site(TL, fn))
+        import sgrep
+        pvt = sgrep.params(fn)
+        okso = False
+        # the outer loop iterates a vector that was collected from the map parameter and sorted by file id
+        for lp_ in [l for l in walk(fn["body"]) if l["k"] == "For"]:
+            it = render(strip(lp_["iter"]))
+            coll = [n_ for n_, b_ in sgrep.find(fn["body"], "let mut __v = __m.into_iter().collect()", None, {"__v": it})]
+            srt = sgrep.has(fn["body"], "__v.sort_by_key(|(__id, _)| *__id)", None, {"__v": it}) or sgrep.has(fn["body"], "__v.sort()", None, {"__v": it}) or sgrep.has(fn["body"], "__v.sort_unstable_by_key(|(__id, _)| *__id)", None, {"__v": it}) or sgrep.has(fn["body"], "__v.sort_by(|__a, __b| __a.0.cmp(&__b.0))", None, {"__v": it})
+            if coll and srt:
+                okso = True
+        direct_ = [l for l in walk(fn["body"]) if l["k"] == "For" and pvt and render(strip(l["iter"])) == pvt[0] and not sgrep.find(fn["body"], "let mut __v = __m.into_iter().collect()", None, {"__v": pvt[0]})]
+        ctx.check(R, "TemplateLibrary::new/files-in-sorted-order", okso and not direct_, "the hash map of file contents must be collected and sorted by file id before it is visited", site(TL, fn))
         ins = list(method_calls(fn["body"], "insert"))
         for i in ins:
             cs = [fact_str(c).replace(" ", "") for c in (conditions_to(fn["body"], i) or [])]
@@ -46,7 +55,12 @@ def rule_tables(ctx):
         ctx.missing(R, "ProgramArchive::new")
     else:
         t = render(fn["body"]).replace(" ", "")
-        ok = ("file_ids.sort();" in t or "file_ids.sort_unstable();" in t) and "forfile_idinfile_ids" in t and "program_contents.keys().collect()" in t
+        import sgrep
+        ok = False
+        for lp_ in [l for l in walk(fn["body"]) if l["k"] == "For"]:
+            it = render(strip(lp_["iter"]))
+            if sgrep.find(fn["body"], "let mut __v = __m.keys().collect()", None, {"__v": it}) and (sgrep.has(fn["body"], "__v.sort()", None, {"__v": it}) or sgrep.has(fn["body"], "__v.sort_unstable()", None, {"__v": it})):
+                ok = True
         direct = [l for l in walk(fn["body"]) if l["k"] == "For" and render(strip(l["iter"])).replace(" ", "") in ("program_contents", "&program_contents", "program_contents.iter()")]
         ctx.check(R, "ProgramArchive::new/files-in-sorted-order", ok and not direct, "the duplicate that gets reported must not depend on the iteration order of the file map", site(PA, fn))
 
